@@ -271,7 +271,203 @@ func extractC10(c *Ctx) error {
 	if err := extractC10Ids(c, ef, vf); err != nil {
 		return err
 	}
+	if err := extractC10Worthy(c, vf); err != nil {
+		return err
+	}
+	if err := extractC10Gates(c, ef); err != nil {
+		return err
+	}
 	return extractC10Callers(c)
+}
+
+// extractC10Gates: every function of x/evm/keeper that hands a valset to a remote chain
+// (SendValsetMsgForChain, or the compass constructor input of a deployment) and the quorum guard in
+// front of it: a top-level `if !isEnoughToReachConsensus(v) { … return … }` that precedes the
+// statement using v, where v is the result of transformSnapshotToCompass or the function's parameter.
+func extractC10Gates(c *Ctx, ef *ast.File) error {
+	files, err := c.ParseDir("x/evm/keeper")
+	if err != nil {
+		return err
+	}
+	var facts []string
+	for _, f := range files {
+		for _, d := range f.Decls {
+			fd, ok := d.(*ast.FuncDecl)
+			if !ok || fd.Body == nil || strings.HasPrefix(fd.Name.Name, "Verif") {
+				continue
+			}
+			// the statements (top level) that let a valset leave: a SendValsetMsgForChain call or
+			// TransformValsetToCompassValset (constructor input of a compass deployment)
+			use, useArg := -1, ""
+			for i, st := range fd.Body.List {
+				for _, name := range []string{"SendValsetMsgForChain", "TransformValsetToCompassValset"} {
+					for _, ce := range Calls(st, name) {
+						if use < 0 {
+							use = i
+							a := ce.Args[len(ce.Args)-1]
+							if name == "SendValsetMsgForChain" && len(ce.Args) >= 3 {
+								a = ce.Args[2]
+							}
+							useArg = strings.TrimPrefix(oneLine(c.Src(a)), "&")
+						}
+					}
+				}
+			}
+			if use < 0 || fd.Name.Name == "SendValsetMsgForChain" {
+				continue
+			}
+			gate, gateArg, returns := -1, "", false
+			for i, st := range fd.Body.List {
+				is, ok := st.(*ast.IfStmt)
+				if !ok || is.Init != nil {
+					continue
+				}
+				ue, ok := is.Cond.(*ast.UnaryExpr)
+				if !ok || ue.Op != token.NOT {
+					continue
+				}
+				ce, ok := ue.X.(*ast.CallExpr)
+				if !ok || oneLine(c.Src(ce.Fun)) != "isEnoughToReachConsensus" || len(ce.Args) != 1 {
+					continue
+				}
+				gate, gateArg = i, oneLine(c.Src(ce.Args[0]))
+				if k := len(is.Body.List); k > 0 {
+					_, returns = is.Body.List[k-1].(*ast.ReturnStmt)
+				}
+				break
+			}
+			origin := "parameter"
+			for _, st := range fd.Body.List {
+				if as, ok := st.(*ast.AssignStmt); ok && len(as.Lhs) == 1 && len(as.Rhs) == 1 && oneLine(c.Src(as.Lhs[0])) == useArg {
+					if ce, ok := as.Rhs[0].(*ast.CallExpr); ok {
+						origin = oneLine(c.Src(ce.Fun))
+					}
+				}
+			}
+			facts = append(facts, fmt.Sprintf("%s: valset %s from %s; gate on %s returns=%v before use=%v",
+				fd.Name.Name, useArg, origin, gateArg, returns, gate >= 0 && gate < use))
+		}
+	}
+	// every projection of a snapshot to a chain: who calls transformSnapshotToCompass with which
+	// snapshot and which reference id
+	var projections []string
+	for _, f := range files {
+		for _, d := range f.Decls {
+			fd, ok := d.(*ast.FuncDecl)
+			if !ok || fd.Body == nil || strings.HasPrefix(fd.Name.Name, "Verif") {
+				continue
+			}
+			for _, ce := range Calls(fd.Body, "transformSnapshotToCompass") {
+				projections = append(projections, fd.Name.Name+": "+oneLine(c.Src(ce)))
+			}
+		}
+	}
+	sort.Strings(projections)
+	c.P("Definition projection_calls : list string := %s.", CoqStrList(projections))
+	sort.Strings(facts)
+	c.P("(* x/evm/keeper: where a valset leaves for a remote chain, and the quorum guard in front *)")
+	c.P("Definition quorum_gates : list string := %s.", CoqStrList(facts))
+	c.Info("quorum_gates", facts)
+	return nil
+}
+
+// extractC10Worthy: the shape of isNewSnapshotWorthy that the model Valset/Worthy.v follows: the
+// conditions of its early `return true`s in source order, the sort comparator, the two stake
+// fractions, the account key, and that everything else returns false.
+func extractC10Worthy(c *Ctx, vf *ast.File) error {
+	fn := FindFunc(vf, "Keeper", "isNewSnapshotWorthy")
+	if fn == nil {
+		return fmt.Errorf("isNewSnapshotWorthy not found")
+	}
+	isRet := func(st ast.Stmt, val string) bool {
+		rs, ok := st.(*ast.ReturnStmt)
+		return ok && len(rs.Results) == 1 && c.Src(rs.Results[0]) == val
+	}
+	var conds []string
+	nReturns := 0
+	ast.Inspect(fn.Body, func(n ast.Node) bool {
+		switch x := n.(type) {
+		case *ast.FuncLit:
+			if len(Calls(x, "Info")) > 0 { // the logging closure
+				return false
+			}
+		case *ast.ReturnStmt:
+			if len(x.Results) == 1 && (c.Src(x.Results[0]) == "true" || c.Src(x.Results[0]) == "false") {
+				nReturns++
+			}
+		case *ast.IfStmt:
+			if k := len(x.Body.List); k > 0 && isRet(x.Body.List[k-1], "true") {
+				cond := oneLine(c.Src(x.Cond))
+				if x.Init != nil {
+					cond = oneLine(c.Src(x.Init)) + "; " + cond
+				}
+				conds = append(conds, cond)
+			}
+		}
+		return true
+	})
+	last := fn.Body.List[len(fn.Body.List)-1]
+	if !isRet(last, "false") || nReturns != len(conds)+1 {
+		return fmt.Errorf("isNewSnapshotWorthy: %d boolean returns for %d recognised `if … return true` (expected one final `return false` besides them)", nReturns, len(conds))
+	}
+	less := ""
+	for _, ce := range Calls(fn.Body, "SliceStable") {
+		if len(ce.Args) == 2 {
+			if fl, ok := ce.Args[1].(*ast.FuncLit); ok && len(fl.Body.List) == 1 {
+				if rs, ok := fl.Body.List[0].(*ast.ReturnStmt); ok && len(rs.Results) == 1 {
+					less = oneLine(c.Src(rs.Results[0]))
+				}
+			}
+		}
+	}
+	key := ""
+	for _, ce := range Calls(fn.Body, "Sprintf") {
+		key = oneLine(c.Src(ce))
+	}
+	var fr []string
+	ast.Inspect(fn.Body, func(n ast.Node) bool {
+		if as, ok := n.(*ast.AssignStmt); ok && len(as.Lhs) == 1 && len(as.Rhs) == 1 && strings.HasPrefix(c.Src(as.Lhs[0]), "percentage") {
+			fr = append(fr, oneLine(c.Src(as.Lhs[0])+" := "+c.Src(as.Rhs[0])))
+		}
+		return true
+	})
+	if less == "" || key == "" || len(fr) != 2 {
+		return fmt.Errorf("isNewSnapshotWorthy: sort comparator / account key / stake fractions not recognised")
+	}
+	c.P("(* x/valset/keeper/keeper.go isNewSnapshotWorthy *)")
+	c.P("Definition worthy_return_true_conditions : list string := %s.", CoqStrList(conds))
+	c.P("Definition worthy_sort_less : string := %s.", CoqStr(less))
+	c.P("Definition worthy_fractions : list string := %s.", CoqStrList(fr))
+	c.P("Definition worthy_account_key : string := %s.", CoqStr(key))
+	c.Info("worthy_return_true_conditions", conds)
+
+	// TriggerSnapshotBuild: the keeper methods it calls, in source order, and the guard between the
+	// verdict and the store
+	tb := FindFunc(vf, "Keeper", "TriggerSnapshotBuild")
+	if tb == nil {
+		return fmt.Errorf("TriggerSnapshotBuild not found")
+	}
+	var seq []string
+	ast.Inspect(tb.Body, func(n ast.Node) bool {
+		if ce, ok := n.(*ast.CallExpr); ok {
+			if se, ok := ce.Fun.(*ast.SelectorExpr); ok && c.Src(se.X) == "k" && se.Sel.Name != "Logger" {
+				seq = append(seq, se.Sel.Name)
+			}
+		}
+		return true
+	})
+	guard := ""
+	for _, st := range tb.Body.List {
+		if is, ok := st.(*ast.IfStmt); ok && strings.Contains(c.Src(is.Cond), "worthy") {
+			guard = oneLine(c.Src(is))
+		}
+	}
+	if guard == "" {
+		return fmt.Errorf("TriggerSnapshotBuild: guard on the verdict not recognised")
+	}
+	c.P("Definition trigger_build_calls : list string := %s.", CoqStrList(seq))
+	c.P("Definition trigger_build_guard : string := %s.", CoqStr(guard))
+	return nil
 }
 
 func oneLine(s string) string { return strings.Join(strings.Fields(s), " ") }
@@ -390,6 +586,14 @@ func extractC10Ids(c *Ctx, ef, vf *ast.File) error {
 	if res == "" {
 		return fmt.Errorf("ValidatorSupportsAllChains: final return not recognised")
 	}
+	var vrets []string
+	ast.Inspect(vs.Body, func(n ast.Node) bool {
+		if rs, ok := n.(*ast.ReturnStmt); ok && len(rs.Results) == 1 {
+			vrets = append(vrets, oneLine(c.Src(rs.Results[0])))
+		}
+		return true
+	})
+	c.P("Definition supports_all_returns : list string := %s.", CoqStrList(vrets))
 	vcalls := callSet(c, vs.Body)
 	c.P("(* x/valset/keeper/keeper.go ValidatorSupportsAllChains *)")
 	c.P("Definition supports_all_input_element : string := %s.", CoqStr(elem))
@@ -430,7 +634,7 @@ func extractC10Ids(c *Ctx, ef, vf *ast.File) error {
 // of the tree (syntactic, by selector name).  SaveModifiedSnapshot ("needed for integration tests")
 // must have no caller: it is not an operation of the history model.
 func extractC10Callers(c *Ctx) error {
-	callers := map[string]map[string]bool{"SaveModifiedSnapshot": {}, "setSnapshotAsCurrent": {}, "SetSnapshotOnChain": {}, "TriggerSnapshotBuild": {}}
+	callers := map[string]map[string]bool{"SaveModifiedSnapshot": {}, "setSnapshotAsCurrent": {}, "SetSnapshotOnChain": {}, "TriggerSnapshotBuild": {}, "SendValsetMsgForChain": {}, "PublishValsetToChain": {}}
 	err := filepath.WalkDir(c.Repo, func(path string, d os.DirEntry, err error) error {
 		if err != nil {
 			return err
@@ -467,7 +671,7 @@ func extractC10Callers(c *Ctx) error {
 	if err != nil {
 		return err
 	}
-	for _, name := range []string{"SaveModifiedSnapshot", "setSnapshotAsCurrent", "SetSnapshotOnChain", "TriggerSnapshotBuild"} {
+	for _, name := range []string{"SaveModifiedSnapshot", "setSnapshotAsCurrent", "SetSnapshotOnChain", "TriggerSnapshotBuild", "SendValsetMsgForChain", "PublishValsetToChain"} {
 		l := SortedSet(callers[name])
 		sort.Strings(l)
 		c.P("Definition callers_of_%s : list string := %s.", name, CoqStrList(l))
